@@ -40,4 +40,12 @@ TEXT = {
                 design_ref="DESIGN.md section 6 C10", note="'known to the session' is modelled with the peeling closure (LDPC) / distinct count (RS)", technique="property-based testing (rapidcheck), stateful invariants after every step"),
     "C11": dict(level="exploration: generated decoder histories with a source callback returning a buffer, NULL or a mix; the callback log is compared with the table after every query (exactly once per decoded symbol, size, ESI, buffer identity, none for received symbols)",
                 design_ref="DESIGN.md section 6 C11", note="library-allocated buffers identified through the sanitizer hooks", technique="property-based testing (rapidcheck) with callback-log oracle"),
+    "C05": dict(level="exploration: generated (k, r, N1, seed) after a generated history of other sessions; three observations of the code actually used (black-box encoder on an identity payload, the session's own parity-check matrix, the exported constructor) are compared entry by entry with an independent RFC 5170 transcription",
+                design_ref="DESIGN.md section 6 C05", note="trusted: rfc5170_ref.hpp (transcription of the RFC pseudo-code, exact integer Park-Miller)", technique="property-based testing (rapidcheck), differential against an independent RFC 5170 implementation, history-prefix metamorphic relation"),
+    "C09": dict(level="exploration: boundary-grid and random configurations for all three codecs; acceptance must coincide with the advertised limits, accepted feasible configurations run a full encode/decode cycle under the C01/C02/C06/C10 oracles, and single-argument corruptions must be refused without disturbing the session",
+                design_ref="DESIGN.md section 6 C09", note="allocation-failure behaviour not judged; one open finding (RS-2^m n > 2^m-1) is excluded by construction and counted", technique="property-based testing (rapidcheck) over a boundary-value grid with validity oracle and follow-up round-trip"),
+    "C12": dict(level="exploration: generated sets of 2-4 sessions with generated interleavings; each session's observation trace must equal the trace of the same script run alone in a pristine forked process",
+                design_ref="DESIGN.md section 6 C12", note="fork-based zygote gives pristine static state; same thread only", technique="property-based testing (rapidcheck), differential/metamorphic: interleaved run vs solo run in a pristine process"),
+    "C15": dict(level="exploration: generated LDPC configurations biased to even N1; whenever the flag is true the reference matrix must have even source-column weights, the encoder's last repair symbol must be all zero for generated payloads, encoder and decoder must agree, and decoding without symbol n-1 must return correct data",
+                design_ref="DESIGN.md section 6 C15", note="trusted: rfc5170_ref.hpp; linearity for 'every source block'", technique="property-based testing (rapidcheck) with reference-matrix parity oracle"),
 }
